@@ -40,6 +40,9 @@ type RuntimeOpts struct {
 	// ListValue) to the reply and to request bodies: an UNSET Value and an explicit JSON null are different
 	// messages.
 	WellKnown bool
+	// FlattenHome (GenMultiServiceFile): the `home` child of some request bodies of the extra services is
+	// flattened (`home_` prefix): their generated MarshalJSON runs on every JSON call.
+	FlattenHome bool
 }
 
 var urlFieldNames = []string{"user_id", "org", "page", "q", "name", "ratio", "flag", "item_id", "limit", "cursor", "since", "tenant_name"}
